@@ -5,21 +5,31 @@ ID = "C49"
 LEVEL = "proof"
 DESIGN_REF = "DESIGN.md section 5, C49"
 PROP_FILES = ["props/Properties_C49.v"]
-RULE = ("cases: for each primitive, messages of every length around the block/padding boundaries (0,1,55,56,57,63,64,65,119,120,121,"
-        "127,128,129,... and the analogous 111/112/128 for SHA-512, 135/136 for SHA3-256, 15/16/17 for Poly1305, 63/64/65 for ChaCha20) with "
-        "random content, fed in every two-piece fragmentation that cuts at a boundary +-1, three-piece fragmentations whose cuts straddle "
-        "block boundaries, byte-at-a-time, empty pieces, and seeded random fragmentations; longer random messages (up to ~2000 bytes); "
-        "SHA-256 cases are run under every implementation SHA256AutoDetect can select (standard, sse4, sse4+avx2, shani) and SHA256D64 for "
-        "1..17 blocks; AEAD: round trips and every single-bit tampering class (ciphertext, tag byte 0..15, aad). "
-        "A case is non-trivial when the message is not empty; distinct = distinct case lines.")
-ASSUMPTIONS = ["the compression / permutation / block functions of the C++ (sha256::Transform and its SSE4, AVX2, SHA-NI variants, sha1/sha512/ripemd160 "
-               "Transform, KeccakF, the ChaCha20 block loop, poly1305_blocks limb arithmetic, SipRound) are not modelled at instruction level: the "
-               "model of each C++ object calls the standard's function at that point, and equality is checked by the correspondence only",
-               "total input length in bits fits the standard's length field (8*len < 2^64): premise of the streaming theorems",
-               "a byte is a number below 256"]
-TRUSTED = ["Coq 8.16.1 kernel (coqc; vm_compute for the standards' test vectors; no native_compute)",
+RULE = ("cases: for each primitive, messages of every length around the block/padding boundaries (SHA-256/SHA-1/RIPEMD-160: 0,1,55,56,57,63,64,65,"
+        "119,120,121,127,128,129,...; SHA-512: 111,112,113,127,128,129,239,240,...; SHA3-256: 134..137 and the 8-byte lane buffer; SipHash: 0..40, "
+        "255..257 (uint8 counter wrap); Poly1305: 15,16,17,...; ChaCha20: 63,64,65,... and block counters 2^32-2..2^32-1) with random content, fed in "
+        "every two-piece fragmentation that cuts at a boundary +-1, three-piece fragmentations whose cuts straddle block boundaries, byte-at-a-time, "
+        "empty pieces and seeded random fragmentations; longer random messages (up to ~2000 bytes); every SHA-256 case is run under every "
+        "implementation SHA256AutoDetect can select (standard, sse4+sse41, +avx2, x86_shani on this CPU) and must agree; SHA256D64 for 1..17 blocks; "
+        "HMAC keys of length 0..3*block around block/2 and block; HKDF info lengths 0..128; AEAD: encryptions with every plaintext split, round "
+        "trips, single-bit tampering of every tag byte and of random ciphertext / aad bits, arbitrary strings to Decrypt; FSChaCha20Poly1305 / "
+        "FSChaCha20 sequences crossing 1..3 rekeyings (interval 1..7 and 224); AES-256 blocks incl. unit vectors, CBC sizes 0..257 with and without "
+        "padding, hand-made padding tails (pad byte 0,1,..,16,17,255, one broken padding byte); hash.h composites, BIP32Hash, MurmurHash3. "
+        "A case is non-trivial when its message is not empty; distinct = distinct case lines.")
+ASSUMPTIONS = ["proved at statement level against the standard: the C++ KeccakF (unrolled) and the poly1305_donna limb arithmetic. NOT modelled at "
+               "instruction level (the model of each C++ object calls the standard's function there; equality is checked by the correspondence "
+               "only): sha256::Transform and its SSE4 / AVX2 / SHA-NI variants and the 2/4/8-way double-hash kernels, sha1/sha512/ripemd160 "
+               "Transform, the unrolled ChaCha20 block loop, SipRound as written in siphash.h is transcribed, the bitsliced ctaes AES code",
+               "total input length in bits fits the standard's length field (8*len < 2^64) for the Merkle-Damgard hashers; ChaCha20 vs RFC 8439: "
+               "the 32-bit block counter does not wrap (the model itself includes the C++ carry into the nonce word and is compared there too)",
+               "a byte is a number below 256 (premise bytes_ok where a proof needs it)",
+               "the AEAD 'rejects any modification' clause is proved in the form: acceptance implies the presented 16-byte tag equals Poly1305 of the "
+               "presented (aad, ciphertext) under the one-time key; that no other transcript has that tag is the (unproved, probabilistic) security "
+               "of Poly1305"]
+TRUSTED = ["Coq 8.16.1 kernel (coqc; vm_compute for the standards' test vectors and finite case checks; no native_compute)",
            "extraction: ExtrOcamlBasic only; ocaml/conv.ml + crypto_driver.ml glue",
-           "tie/drivers/crypto_drv.cpp feeds the real classes of src/crypto with one Write/Update/Crypt call per prescribed fragment and prints the result"]
+           "tie/drivers/crypto_drv.cpp feeds the real classes of src/crypto and src/hash.h with one Write/Update/Crypt call per prescribed "
+           "fragment (each fragment in its own exact-size heap block) and prints the result"]
 
 BOUND64 = [0, 1, 2, 3, 31, 32, 33, 54, 55, 56, 57, 62, 63, 64, 65, 66, 118, 119, 120, 121, 126, 127, 128, 129, 130, 183, 184, 191, 192, 193, 255, 256, 257]
 
@@ -267,19 +277,106 @@ def gen_sip_sha3(rng, tier):
     return cases
 
 
+def gen_aes(rng, tier):
+    cases = []
+    def key():
+        r = rng.random()
+        if r < 0.1: return "00" * 32
+        if r < 0.2: return "ff" * 32
+        if r < 0.3: return "".join("%02x" % i for i in range(32))
+        return rbytes(rng, 32)
+    def block():
+        r = rng.random()
+        if r < 0.1: return "00" * 16
+        if r < 0.2: return "ff" * 16
+        if r < 0.35:
+            b = [0] * 16; b[rng.randrange(16)] = 1 << rng.randrange(8)      # unit vectors: every S-box input / column position
+            return "".join("%02x" % x for x in b)
+        return rbytes(rng, 16)
+    SIZES = [0, 1, 15, 16, 17, 31, 32, 33, 47, 48, 49, 63, 64, 65, 255, 256, 257]
+    k32 = "".join("%02x" % i for i in range(32))
+    cases.append("aes256_enc %s 00112233445566778899aabbccddeeff" % k32)      # FIPS 197 C.3
+    cases.append("aes256_dec %s 8ea2b7ca516745bfeafc49904b496089" % k32)
+    n = 60 if tier == "quick" else 3000
+    for _ in range(n):
+        cases.append("aes256_enc %s %s" % (key(), block()))
+        cases.append("aes256_dec %s %s" % (key(), block()))
+    for _ in range(n):
+        sz = rng.choice(SIZES) if rng.random() < 0.7 else rng.randrange(0, 200)
+        pad = rng.randrange(2)
+        if pad == 0 and rng.random() < 0.7:
+            sz = 16 * rng.randrange(0, 6)
+        cases.append("aes256cbc_enc %s %s %s %d" % (key(), block(), rbytes(rng, sz), pad))
+        # decryption of arbitrary strings (unaligned sizes, almost surely bad padding)
+        cases.append("aes256cbc_dec %s %s %s %d" % (key(), block(), rbytes(rng, rng.choice(SIZES)), rng.randrange(2)))
+    # padding check: hand-made plaintext tails (padding byte 0,1,2,..,16,17,255; one padding byte broken; byte before the padding equal to it)
+    for _ in range(2 * n):
+        nb = rng.choice([1, 1, 2, 3, 4])
+        p = [rng.randrange(256) for _ in range(16 * nb)]
+        pl = rng.choice([0, 1, 2, 3, 8, 15, 16, 16, 17, 32, 255, rng.randrange(256)])
+        for j in range(min(pl, 16)):
+            p[len(p) - 1 - j] = pl
+        p[-1] = pl
+        if 1 <= pl <= 16 and rng.random() < 0.5:
+            j = rng.choice([1, pl - 1, pl - 1, rng.randrange(pl)])
+            if j >= 1:
+                p[len(p) - 1 - j] ^= 1 << rng.randrange(8)
+        if rng.random() < 0.2 and pl < len(p):
+            p[len(p) - 1 - pl] = pl & 255
+        cases.append("aes256cbc_pt %s %s %s %d" % (key(), block(), "".join("%02x" % x for x in p), rng.choice([0, 1, 1, 1])))
+    return cases
+
+
+def gen_wrap(rng, tier):
+    cases = []
+    for name in ("hash256", "hash160"):
+        for n in [0, 1, 31, 32, 33, 55, 56, 63, 64, 65, 80, 119, 120, 128, 200]:
+            m = rbytes(rng, n)
+            fr = fragmentations(rng, n, 64, 2)
+            for f in rng.sample(fr, min(len(fr), 3 if tier == "quick" else 12)):
+                cases.append("%s %s %s" % (name, m, chunks_str(f)))
+    tags = [b"TapLeaf", b"TapBranch", b"TapTweak", b"BIP0340/challenge", b"BIP0340/aux", b"BIP0340/nonce", b"", b"x" * 64, b"y" * 65]
+    for tag in tags:
+        for n in (0, 1, 32, 63, 64, 65, 96, 150):
+            m = rbytes(rng, n)
+            f = rng.choice(fragmentations(rng, n, 64, 2))
+            cases.append("taggedhash %s %s %s" % (tag.hex() if tag else "-", m, chunks_str(f)))
+    for _ in range(20 if tier == "quick" else 500):
+        cases.append("bip32hash %s %d %d %s" % (rbytes(rng, 32), rng.choice([0, 1, 0x7fffffff, 0x80000000, 0xffffffff, rng.getrandbits(32)]),
+                                                rng.choice([0, 2, 3]), rbytes(rng, 32)))
+    for n in list(range(0, 18)) + [31, 32, 33, 100]:
+        for seed in (0, 1, 0xFBA4C795, 0xffffffff, rng.getrandbits(32)):
+            cases.append("murmur3 %d %s" % (seed, rbytes(rng, n)))
+    for d in ("-", "00", "ff", "0011", "001122", "00112233", "0011223344", "001122334455667788"):
+        cases.append("murmur3 0 %s" % d)
+    return cases
+
+
 def mk(name, gen):
     return Tie(name, "tie/drivers/crypto_drv.cpp", "Extract_Crypto.v", "crypto_driver.ml", gen,
                predicate="functional", nontrivial=lambda c: " - " not in c)
 
 
 TIES = [mk("sha256", gen_sha256), mk("hashes", gen_hashes), mk("hmac_hkdf", gen_hmac),
-        mk("chacha20", gen_chacha), mk("poly1305", gen_poly), mk("aead", gen_aead), mk("siphash_sha3", gen_sip_sha3)]
+        mk("chacha20", gen_chacha), mk("poly1305", gen_poly), mk("aead", gen_aead), mk("siphash_sha3", gen_sip_sha3),
+        mk("aes", gen_aes), mk("hash_wrappers", gen_wrap)]
 
-LEVEL_TEXT = ("Coq theorems for all inputs: the model of the C++ streaming hashers (bytes counter, partial-block buffer, the three phases of Write, "
-              "the padding written by Finalize), proved once for any block size and compression function and instantiated for CSHA256, fed any "
-              "fragmentation of a message (empty pieces, any initial buffer contents) returns the one-shot digest defined from FIPS 180-4. "
-              "FIPS test vectors evaluated inside Coq pin the specification; the real classes are compared with the specification on boundary-length "
-              "messages in boundary-straddling fragmentations under every SHA-256 backend the CPU offers.")
-LEVEL_NOTE = ("Trusted: Coq kernel, extraction + driver glue. Not covered by proof: that the hand-optimised / intrinsics compression functions compute "
-              "the standard's compression function (correspondence only).")
-TECHNIQUE = "Coq proof (generic streaming-buffer refinement + vm_compute test vectors) + differential correspondence"
+LEVEL_TEXT = ("Coq theorems for all inputs (36 statements): (1) the streaming wrapper shared by CSHA256/CSHA1/CRIPEMD160/CSHA512 (bytes counter, "
+              "partial-block buffer with arbitrary initial contents, the three phases of Write, Finalize's padding) is proved ONCE for any block size "
+              "and compression function to return, for every fragmentation, the padded iteration of the standard, and instantiated for the four "
+              "hashers with specifications written from FIPS 180-4 / the RIPEMD-160 paper; SHA3_256 and CSipHasher likewise (FIPS 202, SipHash paper; "
+              "no length bound; the unrolled KeccakF is proved equal to Keccak-f[1600]); (2) CHMAC_SHA256/512 = RFC 2104 for every key length, "
+              "CHKDF_HMAC_SHA256_L32 = RFC 5869; CHash256/CHash160/TaggedHash/BIP32Hash = their definitions; TransformD64Wrapper and the SHA256D64 "
+              "dispatch loop = double SHA-256 per block; (3) ChaCha20: any sequence of Crypt/Keystream calls yields consecutive slices of the block "
+              "stream (chunking independence, involution), equal to RFC 8439 while the 32-bit counter does not wrap; Poly1305: incremental Update = "
+              "one-shot RFC 8439, and the 26-bit limb code of poly1305_donna (every uint32/uint64 operation explicit) is proved to compute it; "
+              "(4) AEADChaCha20Poly1305: Encrypt = RFC 8439 2.8 for every plaintext split, Decrypt accepts iff the 16 tag bytes equal the Poly1305 "
+              "tag of (aad, ciphertext) and then returns the plaintext, round trip, a modified tag is always rejected, acceptance implies a valid tag; "
+              "FSChaCha20Poly1305's packet/rekey counters and FSChaCha20's chunk counter / key refresh realise BIP324's schedules; (5) AES-256: InvCipher inverts Cipher (FIPS 197, S-box from its "
+              "definition), AES256CBC wrappers = SP 800-38A with PKCS#7, round trip, exact padding-check characterisation. Standards' test vectors "
+              "evaluated inside Coq pin every specification. The real classes are compared with the specifications on boundary-length inputs in "
+              "boundary-straddling fragmentations under every SHA-256 backend of the CPU, with tamperings and rekey crossings.")
+LEVEL_NOTE = ("Trusted: Coq kernel, extraction + driver glue. Correspondence only (not proof): that the optimised compression / block functions named "
+              "in ASSUMPTIONS compute the standard's function; FSChaCha20 (length cipher) and SipHasher13UJ are modelled and compared but have no "
+              "BIP-level theorem. Lengths >= 2^61 bytes are outside the hashers' theorems (the standards do not define them either).")
+TECHNIQUE = "Coq proof (generic streaming-buffer refinement, stream-reader refinement for ChaCha20, limb arithmetic, vm_compute test vectors) + differential correspondence"
